@@ -894,7 +894,12 @@ func translateStateful(t *target, fd *ast.FuncDecl, v *env) string {
 			if u, ok := t.IntParams[n.Name]; ok {
 				typ = u
 			}
-			if isInt(typ) || typ == "bool" {
+			if typ == "string" && t.Mode == "pure2" {
+				v.types[n.Name] = "string"
+				params = append(params, "("+n.Name+" : list Z)")
+				sg.keep = append(sg.keep, true)
+				sg.ptypes = append(sg.ptypes, "string")
+			} else if isInt(typ) || typ == "bool" {
 				v.types[n.Name] = typ
 				params = append(params, "("+n.Name+" : "+map[bool]string{true: "bool", false: "Z"}[typ == "bool"]+")")
 				sg.keep = append(sg.keep, true)
